@@ -13,7 +13,7 @@ Extraction "model.ml"
   Num.num_eqb Num.num_cmp Num.num_ltb Num.num_leb Num.num_gtb Num.num_geb Num.num_eqv
   Num.num_max2 Num.num_min2 Num.is_exact
   Lexer.lex_text Reader.read_text
-  Macro.transform_use Transform.transform_stmt Transform.transform_transformer
+  Macro.transform_use Datum.set_dloc Transform.transform_stmt Transform.transform_transformer
   Value.empty_state Value.env_define Value.env_get
   Print.display Print.print_f32 Print.print_number
   Builtins.builtin_table Builtins.tick_table
